@@ -14,11 +14,22 @@ def main():
     from . import guards
 
     guards.install_budget()
+    if spec.get("shard", 0) % 4 == 2:
+        # ambient state the user's own script may have set and the library has no business depending on: a low decimal
+        # precision, another working directory
+        import decimal
+        import os
+        import tempfile
+
+        decimal.getcontext().prec = 6
+        decimal.getcontext().rounding = decimal.ROUND_DOWN
+        os.chdir(tempfile.gettempdir())
     failed = guards.provoke_failures()
     mod = runner.monitor_module(prop)
     rep = report.Report(prop, spec)
     rep.count("failed_library_calls_before_the_workload", failed)
     rep.count("shards_run_under_python_-O", 0 if __debug__ else 1)
+    rep.count("shards_run_with_altered_ambient_state(decimal context, cwd)", 1 if spec.get("shard", 0) % 4 == 2 else 0)
     from . import api
 
     api.check(rep, prop)
